@@ -140,6 +140,11 @@ def run_join(src, tgt, mode, agg, shape_variant, source_delete, wildcard):
     lacking = [r for r in rows if xname not in r]
     if lacking:
         raise AssertionError('a row emitted by join does not carry the joined field %r: %r' % (xname, lacking[0]))
+    # ... and exactly the fields the emitted schema declares: no more (a '#' of the row-number key), no less (the row of an unmatched
+    # source key has the target's own fields, null)
+    odd = [r for r in rows if set(r) != set(fnames['tgt'])]
+    if odd:
+        raise AssertionError('a row emitted by join does not carry exactly the declared fields %s: %r' % (fnames['tgt'], odd[0]))
     # every target row gets an aggregate VALUE of its own: two rows with the same key must not share one mutable object (the next step
     # may edit a row in place)
     cont = [r[xname] for r in rows if isinstance(r.get(xname), (list, dict, set))]
@@ -175,11 +180,11 @@ def replay_case(item):
     if got_o != want_o:
         return dict(ok=False, why='target rows differ', got=canon(got_o), want=canon(want_o))
     if c['shape'] == 'rownum':
-        got_e = sorted(canon([from_real(r.get(xname), agg)]) for r in rows[n:])
-        want_e = sorted(canon([from_spec(d['x'])]) for d in c['extra'])
+        got_e = sorted(canon([from_real(r.get('t', 'absent'), None), from_real(r.get(xname), agg)]) for r in rows[n:])
+        want_e = sorted(canon([from_spec(d['t']), from_spec(d['x'])]) for d in c['extra'])
     else:
-        got_e = sorted(canon([from_real(r.get('k'), None), from_real(r.get(xname), agg)]) for r in rows[n:])
-        want_e = sorted(canon([from_spec(d['key']), from_spec(d['x'])]) for d in c['extra'])
+        got_e = sorted(canon([from_real(r.get('k'), None), from_real(r.get('t', 'absent'), None), from_real(r.get(xname), agg)]) for r in rows[n:])
+        want_e = sorted(canon([from_spec(d['key']), from_spec(d['t']), from_spec(d['x'])]) for d in c['extra'])
     if got_e != want_e:
         return dict(ok=False, why='rows for unmatched source keys differ', got=got_e, want=want_e)
     return dict(ok=True)
@@ -205,7 +210,7 @@ def random_join(item):
     # the target rows come first and carry t = 7; rows for unmatched source keys have no t
     ordered = [dict(k=to_spec(x.get('k'), None), t=to_spec(x.get('t'), None), x=to_spec(x.get(xname), agg)) for x in rows if x.get('t') is not None]
     extra_rows = [x for x in rows if x.get('t') is None]
-    extra = [dict(key=(to_spec(x.get('k'), None) if shape == 'field' else None), x=to_spec(x.get(xname), agg)) for x in extra_rows]
+    extra = [dict(key=(to_spec(x.get('k'), None) if shape == 'field' else None), t=to_spec(x.get('t', 'absent'), None), x=to_spec(x.get(xname), agg)) for x in extra_rows]
     order_ok = all(x.get('t') is not None for x in rows[:len(ordered)])
     return dict(src=src, tgt=tgt, mode=mode, agg=agg, shape=shape, ordered=ordered, extra=extra, order_ok=order_ok)
 
@@ -317,7 +322,7 @@ def run():
                 if e['key'] is None:
                     e['key'] = ['n']
         verd = validate(rep, [dict(src=g['src'], tgt=g['tgt'], mode=g['mode'], agg=g['agg'], shape=g['shape'], ordered=g['ordered'],
-                                   extra=[e if g['shape'] == 'field' else dict(key=['i', 0], x=e['x']) for e in g['extra']]) for g in good])
+                                   extra=[e if g['shape'] == 'field' else dict(key=['i', 0], t=e['t'], x=e['x']) for e in g['extra']]) for g in good])
         # the binding binds: a recorded join with its last emitted row removed must be rejected
         import copy
         probe = next((g for g in good if len(g['ordered']) >= 1 and g['shape'] == 'field'), None)
